@@ -27,6 +27,7 @@ type seqCfg struct {
 	Extra    []string // names that exist on the service but get no events
 	Initial  string   // initial cache document ("" = none)
 	Events   []string // if set, the event alphabet (default: all events for Names)
+	AutoRead bool     // after every event, take a handle for every declared name and read it
 	NoDedup  bool     // explore the full history tree: two histories are never merged, so state the
 	// dump cannot see (hidden state a change may introduce) cannot hide behind an equal dump
 }
@@ -223,6 +224,16 @@ func (w *world) expired(e *mEntry) bool {
 
 // step applies one event.
 func (w *world) step(ev string) {
+	w.step1(ev)
+	if kind, _, _ := strings.Cut(ev, ":"); w.cfg.AutoRead && w.st != nil && kind != "secret" && kind != "read" {
+		for _, n := range w.cfg.Declared {
+			w.step1("secret:" + n)
+			w.step1("read:" + n)
+		}
+	}
+}
+
+func (w *world) step1(ev string) {
 	if w.st == nil {
 		return
 	}
